@@ -24,5 +24,14 @@ AnnProgram(place, a) ==
 ASSUME \A c \in Ctors, n \in 0..3, comma \in BOOLEAN, arg \in {"int", "str"}, place \in Places :
    (~Fits(c, n) /\ (comma => n > 0)) =>
      PrintT("ANN " \o ToJson([ctor |-> c, n |-> n, place |-> place, text |-> "def v() -> int:\n\treturn 1\n\n" \o AnnProgram(place, Ann(c, n, comma, arg))]))
+\* ---- resource faults: valid Python whose nesting exceeds what a recursive reader can hold, and files whose bytes are no
+\* text at all.  Both fail before the module is registered (read / parse stage) with an exception of the runtime, not of tranp
+DeepShapes == {"paren", "minus", "attr", "list", "call"}
+DeepDepths == {20, 200, 1000, 3000}
+ASSUME \A sh \in DeepShapes, d \in DeepDepths : PrintT("DEEP " \o ToJson([shape |-> sh, depth |-> d]))
+\* byte sequences (decimal) that are not valid UTF-8, and where they stand in the file
+BadBytes == << <<195>>, <<226, 130>>, <<255>>, <<192, 128>>, <<237, 160, 128>> >>
+BytePlaces == {"string", "comment", "name", "start"}
+ASSUME \A i \in DOMAIN BadBytes, pl \in BytePlaces : PrintT("BYTES " \o ToJson([bytes |-> BadBytes[i], place |-> pl]))
 ASSUME \A p \in 1..NPrograms, o \in MutOps, k \in 1..NPositions : PrintT("MUT " \o ToJson([program |-> p, op |-> o, pos |-> k]))
 =============================================================================
